@@ -2664,7 +2664,11 @@ func (p *parser) parseLambdaExpr(allowTuple, allowCmd, allowRangeExpr bool) (x a
 			}
 			last = p.expect(token.RPAREN) + 1
 		case token.LBRACE: // {
+			// the block is a function body: labels are scoped to it (a lambda may occur where
+			// no label scope is open: ParseExpr, package-level variable initialisers)
+			p.openLabelScope()
 			body = p.parseBlockStmt()
+			p.closeLabelScope()
 		default:
 			rhs = []ast.Expr{p.parseExpr(false, false, false)}
 			last = rhs[0].End()
